@@ -11,9 +11,20 @@ from . import env
 
 
 def run_one(patch, tier, runs=None):
+    """a patch named C08+C15-<name>.patch is run against both checks (worst verdict wins)"""
     name = os.path.basename(patch)[:-len(".patch")]
-    prop = name.split("-")[0]
-    scratch = f"/tmp/kd_mutant_{os.getpid()}_{name}"
+    props = name.split("-")[0].split("+")
+    worst = None
+    for prop in props:
+        r = _run_one(patch, name, prop, tier, runs)
+        order = {"HARNESS-ERROR": 3, "PATCH-FAILED": 3, "CAUGHT": 2, "MISSED": 1}
+        if worst is None or order.get(r[2], 3) > order.get(worst[2], 3):
+            worst = r
+    return worst
+
+
+def _run_one(patch, name, prop, tier, runs=None):
+    scratch = f"/tmp/kd_mutant_{os.getpid()}_{name.replace('+', '_')}"
     shutil.rmtree(scratch, ignore_errors=True)
     try:
         subprocess.run(["rsync", "-a", "--exclude", ".git", env.repo_dir() + "/", scratch + "/"], check=True)
@@ -41,8 +52,9 @@ def run_one(patch, tier, runs=None):
         shutil.rmtree(scratch, ignore_errors=True)
 
 
-def main(names, tier):
-    patches = sorted(glob.glob(os.path.join(env.VERIF_DIR, "mutants", "*.patch")))
+def main(names, tier, folder="mutants", expect="CAUGHT"):
+    """mutants: every patch must be CAUGHT; refactors (behaviour-preserving rewrites): every patch must leave the check at exit 0"""
+    patches = sorted(glob.glob(os.path.join(env.VERIF_DIR, folder, "*.patch")))
     if names:
         patches = [p for p in patches if any(n in os.path.basename(p) for n in names)]
     bad = 0
@@ -56,11 +68,13 @@ def main(names, tier):
     try:
         for p in patches:
             name, prop, status, info, dt = run_one(p, tier, os.environ.get("VERIF_MUTANT_RUNS"))
+            if expect == "HELD":
+                status = {"MISSED": "HELD", "CAUGHT": "FALSE-ALARM"}.get(status, status)
             print(f"{status:14s} {name}  ({dt:.0f}s)")
-            if status != "CAUGHT":
+            if status != expect:
                 bad += 1
                 print("   " + info.replace("\n", "\n   "))
-            else:
+            elif expect == "CAUGHT":
                 print("   " + info.split("\n")[1].strip()[:200] if "\n" in info else "")
             sys.stdout.flush()
     finally:
@@ -68,5 +82,5 @@ def main(names, tier):
             shutil.rmtree(ev_dir, ignore_errors=True)
             shutil.copytree(keep, ev_dir)
             shutil.rmtree(keep, ignore_errors=True)
-    print(f"{len(patches) - bad}/{len(patches)} mutants caught")
+    print(f"{len(patches) - bad}/{len(patches)} {folder} {'caught' if expect == 'CAUGHT' else 'held (no false alarm)'}")
     return 0 if not bad else 1
